@@ -252,8 +252,44 @@ Theorem C12_no_result_lost :
 Proof. exact no_result_lost. Qed.
 Print Assumptions C12_no_result_lost.
 
+(* Readiness failures are outside C12's quantifier. Without a ReadyErr event no attempt ever
+   fails readiness: rfl stays empty on every reachable state, so that C12_readiness,
+   C12_start_spacing and C12_all_failed_only_if read as the property does -- in particular
+   AllAttemptsFailed ==> length (starts x) = maxa c: every attempt has been started. *)
+Theorem C12_no_readyerr_no_rfl :
+  forall (c : cfg) (evs : list ev) (i : nat), (1 <= maxa c)%nat ->
+  (forall j k, ~ In (ReadyErr j k) evs) ->
+  Forall (fun s => rfl (calls s i) = []) (states (step_st c) (init c) evs).
+Proof. exact no_readyerr_no_rfl. Qed.
+Print Assumptions C12_no_readyerr_no_rfl.
+
+(* With positive delays (a fixed positive delay in particular: delay c k = d >= 1) a step
+   launches at most one attempt, so after any list of events at most that many attempts have
+   been launched. This is why run_script may run a script whose max_hedged_attempts exceeds its
+   number of events + 1 (up to usize::MAX: no value makes the repaired code panic) with that
+   number + 2 instead: the maximum is never reached. *)
+Theorem C12_launches_le_events :
+  forall (c : cfg) (evs : list ev) (i : nat), (1 <= maxa c)%nat ->
+  (forall k, (1 <= k)%nat -> 1 <= delay c k) ->
+  (length (launch (calls (fold_left (step_st c) evs (init c)) i)) <= length evs)%nat.
+Proof. exact launches_le_events. Qed.
+Print Assumptions C12_launches_le_events.
+
+(* ... and below that bound the whole trace is the same for every maximum: two configurations
+   that differ only in max_hedged_attempts, both above (number of events + 1), produce the same
+   trace on every event list. So the trace run_script computes with (number of events + 2) IS
+   the trace of the configured maximum, however large (usize::MAX included). *)
+Theorem C12_max_irrelevant_below_bound :
+  forall (c1 c2 : cfg) (total : nat) (evs : list ev),
+  dcfg c1 = dcfg c2 -> gated c1 = gated c2 ->
+  (forall k, (1 <= k)%nat -> 1 <= delay c1 k) ->
+  (length evs + 2 <= maxa c1)%nat -> (length evs + 2 <= maxa c2)%nat ->
+  run_evs c1 total (init c1) evs = run_evs c2 total (init c2) evs.
+Proof. exact run_evs_maxa_irrelevant. Qed.
+Print Assumptions C12_max_irrelevant_below_bound.
+
 (* The scripts: the configuration of every script has max_hedged_attempts >= 1 (the only
-   hypothesis above); a delay given in microseconds is the model's millisecond delay up to
+   hypothesis above; the builder stores n.max(1), and so does cfg_of for max = 0); a delay given in microseconds is the model's millisecond delay up to
    rounding up (what a millisecond timer does on whole-millisecond instants), so "no earlier
    than delay c k" implies "no earlier than the configured delay". *)
 Theorem C12_script_cfg : forall sc : list Z, (1 <= maxa (cfg_of sc))%nat.
